@@ -178,8 +178,8 @@ theorem spec_invariant_after_any_history (cfg : Cfg) (ok : CfgOK cfg) (hfuel : c
 state `a` simulates (`Inv`), handles it, possibly followed by the periodic section (`q`); `evs` are the events after the
 `rd` marker.  Then `Spec.checkLoggerWaited` — evaluated by `Spec.roundBody` on exactly these arguments, on a state `X`
 with the table and failure environment of `a` — reports nothing: every logger that subscribes to the type of a data frame
-(in range, not the ALL sentinel) and whose connection works gets its copy also when it was not writable.  Not linked:
-the other C14 clauses (see the header). -/
+(in range, not the ALL sentinel) and whose connection works gets its copy also when it was not writable.  (One clause of C14; the others: see the
+header and the theorems below.) -/
 theorem logger_waited_clause_passes_partial (cfg : Cfg) (ok : CfgOK cfg) (hfuel : cfg.fuel = 0) (hperm : OrdPerm cfg)
     {a : Spec.A} {s : State} (inv : Inv cfg a s) (rd : Read) (hu0 : rd.uid ≠ 0) (m : Module) (hm : s.find rd.uid = some m)
     (s2 : State) (q : QuietTo cfg (readOne cfg s rd) s2) (evs : List Ev) (he : s2.out = s.out ++ Ev.rd rd.uid :: evs)
